@@ -49,6 +49,8 @@ class ExprMixin:
     def num(self, v, what, path, line):
         """Return (term, is_real) of a numeric value; None / non-numbers are a TypeError obligation."""
         if isinstance(v, VInt): return v.t, False
+        if isinstance(v, VEnumSym): return v.t, False
+        if isinstance(v, VEnum): return z3.IntVal(self.repo.enums[v.cls][v.name]), False
         if isinstance(v, VAff): return v.t, False            # value of an LP expression under the ghost valuation
         if isinstance(v, VBool): return z3.If(v.t, z3.IntVal(1), z3.IntVal(0)), False
         if isinstance(v, VReal): return v.t, True
@@ -124,6 +126,7 @@ class ExprMixin:
         if isinstance(o, VExt) and o.tag == 'enumclass':
             if e.attr not in self.repo.enums[o.data]: raise Undecided('enum member ' + e.attr)
             return VEnum(o.data, e.attr)
+        if isinstance(o, VExt) and o.tag == 'LpProblem' and e.attr == 'status': return VInt(self.lp_status_get(p))
         if isinstance(o, VExt): return VExt('attr', (o, e.attr))
         if isinstance(o, VLpVar) and e.attr == 'varValue': return self.lp_var_value(o, p, e.lineno)
         if isinstance(o, VNone):
@@ -407,6 +410,12 @@ class ExprMixin:
                 if any(isinstance(x, str) or x[0] in ('int', 'real') for x in a): return z3.BoolVal(False)
         if len(la) == 1 and len(ra) == 1 and isinstance(la[0], tuple) and isinstance(ra[0], tuple) and la[0][0] == ra[0][0] == 'int':
             return la[0][1] == ra[0][1]
+        if len(la) == 1 and len(ra) == 1:      # LpStatus[code] == 'Optimal'
+            from .models_lp import STATUS
+            for a, b in ((la[0], ra[0]), (ra[0], la[0])):
+                if isinstance(a, tuple) and a[0] == 'status' and isinstance(b, str):
+                    return a[1] == STATUS[b] if b in STATUS else z3.BoolVal(False)
+            if isinstance(la[0], tuple) and isinstance(ra[0], tuple) and la[0][0] == ra[0][0] == 'status': return la[0][1] == ra[0][1]
         if len(la) == 1 and len(ra) == 1:      # str(int) == 'digits'
             for a, b in ((la[0], ra[0]), (ra[0], la[0])):
                 if isinstance(a, tuple) and a[0] == 'int' and isinstance(b, str):
@@ -500,6 +509,9 @@ class ExprMixin:
         return z3.If(i >= 0, i, i + b_len)
 
     def index(self, b, i, p, line):
+        if isinstance(b, VExt) and b.tag == 'LpStatus':
+            if not isinstance(i, VInt): raise Undecided('LpStatus key')
+            return VStr([('status', i.t)])
         if isinstance(b, VDict):
             if isinstance(i, VEnum) and i in b.d: return b.d[i]
             self.vc('no-raise/key@%d' % line, p, z3.BoolVal(False), line=line)
@@ -512,7 +524,8 @@ class ExprMixin:
         if isinstance(i, VOpt) or isinstance(i, VNone):
             t, _ = self.num(i, 'index', p, line); i = VInt(t)
         if not isinstance(i, VInt):
-            if isinstance(i, VBool): i = VInt(z3.If(i.t, 1, 0))
+            if isinstance(i, VRef) and self.spec_mode: i = VInt(i.t)          # summands indexed by object reference (specs only)
+            elif isinstance(i, VBool): i = VInt(z3.If(i.t, 1, 0))
             else: raise Undecided('index %r' % (i,))
         if isinstance(b, VList):
             j = i.t if self.spec_mode else self.norm_index(b.len, i.t, p, line)
